@@ -18,6 +18,36 @@ RULE = ('TLC runs the site-by-site inverse-CDF machine of spec/Sampling.tla for 
         'strings and frequencies')
 
 
+class _Unbound(Exception):
+    pass
+
+
+def convergence(qc, t, meas, case, n, force=False):
+    """frequencies of many samples (seeded generator) converge to the exact marginal"""
+    if not force and (n + len(meas) + len(case['cores'][0][0][0][0])) % 4 != 0:
+        return []
+    dist = np.array(case['dist'], dtype=float) / case['total']
+    np.random.seed(12345 + n)
+    N = 20000
+    samples, probs = qc.sampling(t, meas, N)
+    emp = np.zeros(len(dist))
+    for r, p in zip(np.asarray(samples).reshape(len(samples), -1), probs):
+        k = int(''.join(str(int(x)) for x in r), 2)
+        emp[k] = p
+    tv = 0.5 * float(np.sum(np.abs(emp - dist)))
+    if tv > 0.05:
+        return [('sampling:convergence', 'total variation %.3f between frequencies of %d samples and the exact '
+                                         'marginal (n=%d, meas=%r)' % (tv, N, n, meas))]
+    return []
+
+
+def post_hook(artifacts, rep, tier):
+    n = sum(1 for sig, _ in artifacts if sig == '@unbound')
+    if n:
+        rep.note('prediction clause not bound in %d cases (%s); convergence clause evaluated instead' % (n, artifacts[0][1]))
+    return dict(prediction_clause_unbound_cases=n)
+
+
 def replay(case):
     import scikit_tt.quantum_computation as qc
     from scikit_tt.tensor_train import TT
@@ -33,9 +63,24 @@ def replay(case):
     want_rows = sorted(set(rows))
     want_freq = [rows.count(r) / len(rows) for r in want_rows]
     sig = 'n%d' % n
+    # binding of the variates: the sampler draws one (samples x measured sites) array from numpy.random.rand.  If a
+    # re-implementation draws its variates differently the prediction clause is not bound (artifact '@unbound'), the
+    # convergence clause below still applies.
+    calls = []
+
+    def fake_rand(*shape):
+        calls.append(tuple(shape))
+        if tuple(shape) != u.shape:
+            raise _Unbound()
+        return u.copy()
     try:
-        with mock.patch('numpy.random.rand', side_effect=lambda *shape: u.reshape(shape).copy()):
+        with mock.patch('numpy.random.rand', side_effect=fake_rand):
             samples, probs = qc.sampling(t, meas, len(rows))
+        if len(calls) != 1:
+            raise _Unbound()
+    except _Unbound:
+        return [('@unbound', 'variates not drawn by one numpy.random.rand(samples, sites) call: %r' % (calls[:3],))] + \
+            convergence(qc, t, meas, case, n, force=True)
     except Exception as e:
         return [('sampling:exception:%s' % type(e).__name__, 'sampling raised %r (n=%d meas=%r)' % (e, n, meas))]
     samples = np.asarray(samples)
@@ -47,20 +92,7 @@ def replay(case):
         out.append(('sampling:distinct', 'returned bit strings are not distinct'))
     if np.max(np.abs(np.asarray(probs) - np.array(want_freq))) > 1e-12 or abs(float(np.sum(probs)) - 1) > 1e-12:
         out.append(('sampling:frequencies', 'frequencies %r, predicted %r' % (list(probs), want_freq)))
-    # convergence of the frequencies to the exact marginal
-    if (n + len(meas) + len(case['cores'][0][0][0][0])) % 4 == 0:
-        dist = np.array(case['dist'], dtype=float) / case['total']
-        np.random.seed(12345 + n)
-        N = 20000
-        samples, probs = qc.sampling(t, meas, N)
-        emp = np.zeros(len(dist))
-        for r, p in zip(np.asarray(samples).reshape(len(samples), -1), probs):
-            k = int(''.join(str(int(x)) for x in r), 2)
-            emp[k] = p
-        tv = 0.5 * float(np.sum(np.abs(emp - dist)))
-        if tv > 0.05:
-            out.append(('sampling:convergence', 'total variation %.3f between frequencies of %d samples and the exact '
-                                                'marginal (n=%d, meas=%r)' % (tv, N, n, meas)))
+    out += convergence(qc, t, meas, case, n)
     return out
 
 
